@@ -111,6 +111,7 @@ type ListOpts struct {
 	StopOnError bool
 	WantOutput  bool
 	ViaInfos    bool // ConnlistFromResourceInfos(fsscanner...) instead of ConnlistFromDirPath
+	ScanAll     bool // with ViaInfos: the infos are scanned the ordinary way (continue on error) even under StopOnError
 	Mute        bool // the analyzer's own WithMuteErrsAndWarns option (off by default, as in `list`)
 	Twice       bool // the input is analysed twice on one analyzer; the second result counts
 }
@@ -203,7 +204,7 @@ func RunList(dir string, o ListOpts) (res *ListRes) {
 	var peers []connlist.Peer
 	var err error
 	if o.ViaInfos {
-		infos, scanErrs := fsscanner.GetResourceInfosFromDirPath([]string{dir}, true, o.StopOnError)
+		infos, scanErrs := fsscanner.GetResourceInfosFromDirPath([]string{dir}, true, o.StopOnError && !o.ScanAll)
 		for _, e := range scanErrs {
 			res.ScanErrs = append(res.ScanErrs, e.Error())
 		}
@@ -393,7 +394,14 @@ func RunDiff(d1, d2 string, o DiffOpts) (res *DiffRes) {
 		}
 		res.Errs = append(res.Errs, ei)
 	}
-	if err != nil || cd == nil {
+	if err != nil {
+		return res
+	}
+	if cd == nil {
+		// no error and no value: the diff command renders whatever comes with a nil error - so does this (a panic is
+		// recorded by the deferred recover)
+		res.Out, res.OutErr = da.ConnectivityDiffToString(cd)
+		res.Empty = true
 		return res
 	}
 	res.Empty = cd.IsEmpty()
@@ -435,10 +443,20 @@ func listRawFocus(dir string, exposure bool, format, focus string, stopOnErr boo
 
 func diffRaw(d1, d2 string) {
 	for _, f := range []string{"txt", "dot", "csv", "md"} {
-		da := diff.NewDiffAnalyzer(diff.WithOutputFormat(f))
-		cd, err := da.ConnDiffFromDirPaths(d1, d2)
-		if err == nil && cd != nil {
-			_, _ = da.ConnectivityDiffToString(cd)
-		}
+		diffRawOne(d1, d2, f, false)
+	}
+}
+
+// diffRawOne does what the diff command does: whenever no error is returned the returned value is rendered (no
+// nil guard - the command has none).
+func diffRawOne(d1, d2, format string, stopOnErr bool) {
+	opts := []diff.DiffAnalyzerOption{diff.WithOutputFormat(format), diff.WithArgNames("dir1", "dir2")}
+	if stopOnErr {
+		opts = append(opts, diff.WithStopOnError())
+	}
+	da := diff.NewDiffAnalyzer(opts...)
+	cd, err := da.ConnDiffFromDirPaths(d1, d2)
+	if err == nil {
+		_, _ = da.ConnectivityDiffToString(cd)
 	}
 }
